@@ -75,6 +75,7 @@ type Gates struct {
 	yields  map[string]int
 	rel     map[string]chan struct{}
 	arrived chan string
+	parked  map[string]int
 	inGate  int64 // number of goroutines currently inside a Hold gate
 	maxIn   int64
 	log     *Log
@@ -82,7 +83,7 @@ type Gates struct {
 }
 
 func NewGates(l *Log) *Gates {
-	return &Gates{mode: map[string]int{}, yields: map[string]int{}, rel: map[string]chan struct{}{}, arrived: make(chan string, 4096), log: l}
+	return &Gates{mode: map[string]int{}, yields: map[string]int{}, rel: map[string]chan struct{}{}, parked: map[string]int{}, arrived: make(chan string, 4096), log: l}
 }
 
 // Set configures the behaviour of gate(key). For Yield, n is the number of yields.
@@ -125,11 +126,17 @@ func (g *Gates) Enter(key string) {
 		if g.log != nil {
 			g.log.Add("G", key, 0)
 		}
+		g.mu.Lock()
+		g.parked[key]++
+		g.mu.Unlock()
 		select {
 		case g.arrived <- key:
 		default:
 		}
 		<-ch
+		g.mu.Lock()
+		g.parked[key]--
+		g.mu.Unlock()
 		atomic.AddInt64(&g.inGate, -1)
 		if g.log != nil {
 			g.log.Add("R", key, 0)
@@ -139,6 +146,13 @@ func (g *Gates) Enter(key string) {
 
 // Arrived delivers the keys of goroutines that reached a Hold gate.
 func (g *Gates) Arrived() <-chan string { return g.arrived }
+
+// Parked reports whether some goroutine is currently parked on gate key.
+func (g *Gates) Parked(key string) bool {
+	g.mu.Lock()
+	defer g.mu.Unlock()
+	return g.parked[key] > 0
+}
 
 // InGate is the number of goroutines currently parked in Hold gates.
 func (g *Gates) InGate() int64 { return atomic.LoadInt64(&g.inGate) }
@@ -179,6 +193,7 @@ func (g *Gates) ReleaseAll() {
 func (g *Gates) Reopen() {
 	g.mu.Lock()
 	g.closed = false
+	g.parked = map[string]int{}
 	g.mode = map[string]int{}
 	g.yields = map[string]int{}
 	g.rel = map[string]chan struct{}{}
